@@ -136,12 +136,16 @@ Section ScanFacts.
               /\ c_parse c = P (extent whole (c_start c) (c_stop c))
               /\ (forall nm, key_before whole (c_start c) = Some nm -> c_key c = Some nm).
 
-  Definition seek_inv (last : option string) (i : nat) : Prop :=
-    forall nm, key_before whole i = Some nm -> last = Some nm.
+  (* the loop state of find_identifier agrees with the specification's [key_state] (where that one
+     knows a name) *)
+  Definition seek_inv (last prev : option string) (nm : bool) (i : nat) : Prop :=
+    (forall x, k_last (key_state whole i) = Some x -> last = Some x)
+    /\ (forall x, k_prev (key_state whole i) = Some x -> prev = Some x)
+    /\ k_name (key_state whole i) = nm.
 
   Definition mode_inv (m : mode) (i : nat) : Prop :=
     match m with
-    | First last | Seek last => seek_inv last i
+    | First last prev nm | Seek last prev nm => seek_inv last prev nm i
     | Ext key st row p b c saw =>
         st < i
         /\ (exists t, nth_error whole st = Some t /\ is_name "lambda" t = true /\ row = trow t)
@@ -166,26 +170,36 @@ Section ScanFacts.
     | _ => True
     end.
 
-  Lemma seek_name : forall i t, nth_error whole i = Some t -> is_kind KName t = true ->
-                                seek_inv (Some (ttext t)) (S i).
+  Lemma key_state_step : forall i t, nth_error whole i = Some t ->
+                                     key_state whole (S i) = kstep (key_state whole i) t.
   Proof.
-    intros i t Hn Hk nm. unfold key_before. rewrite (firstn_snoc _ _ _ _ Hn), fold_left_app.
-    cbn [fold_left]. unfold kstep at 1. rewrite Hk. congruence.
+    intros i t Hn. unfold key_state. rewrite (firstn_snoc _ _ _ _ Hn), fold_left_app. reflexivity.
   Qed.
 
-  Lemma seek_other : forall i t last, nth_error whole i = Some t -> is_kind KName t = false ->
-                                      seek_inv last i -> seek_inv last (S i).
+  Lemma seek_name : forall i t last prev nm, nth_error whole i = Some t -> is_kind KName t = true ->
+                                seek_inv last prev nm i ->
+                                seek_inv (Some (ttext t)) last true (S i).
   Proof.
-    intros i t last Hn Hk Hinv nm. unfold key_before. rewrite (firstn_snoc _ _ _ _ Hn), fold_left_app.
-    cbn [fold_left]. unfold kstep at 1. rewrite Hk. destruct (is_stop t); [discriminate|].
-    apply Hinv.
+    intros i t last prev nm Hn Hk (H1 & H2 & H3). unfold seek_inv. rewrite (key_state_step _ _ Hn).
+    unfold kstep. rewrite Hk. cbn [k_last k_prev k_name]. repeat split; auto.
+  Qed.
+
+  Lemma seek_other : forall i t last prev nm, nth_error whole i = Some t -> is_kind KName t = false ->
+                                      seek_inv last prev nm i ->
+                                      seek_inv (unkw true nm last prev t) prev false (S i).
+  Proof.
+    intros i t last prev nm Hn Hk (H1 & H2 & H3). unfold seek_inv. rewrite (key_state_step _ _ Hn).
+    unfold kstep, unkw. rewrite Hk, H3. cbn [andb].
+    destruct (is_stop t); cbn [k_last k_prev k_name]; [repeat split; auto; discriminate|].
+    destruct (nm && is_op "=" t); cbn [k_last k_prev k_name]; repeat split; auto.
   Qed.
 
   Lemma seek_after_stop : forall i t, nth_error whole i = Some t -> is_stop t = true ->
-                                      seek_inv None (S i).
+                                      seek_inv None None false (S i).
   Proof.
-    intros i t Hn Hs nm. unfold key_before. rewrite (firstn_snoc _ _ _ _ Hn), fold_left_app.
-    cbn [fold_left]. unfold kstep at 1. rewrite (is_stop_not_name _ Hs), Hs. discriminate.
+    intros i t Hn Hs. unfold seek_inv. rewrite (key_state_step _ _ Hn).
+    unfold kstep. rewrite (is_stop_not_name _ Hs), Hs. cbn [k_last k_prev k_name].
+    repeat split; auto; discriminate.
   Qed.
 
   Lemma close_done : forall key st stop row cs k res,
@@ -202,7 +216,7 @@ Section ScanFacts.
   Lemma scan_sound : forall ts m i cs res,
       skipn i whole = ts -> mode_inv m i -> Forall good cs ->
       (forall c, In c cs -> c_start c < lim m i) ->
-      scan P kw whole m i ts cs = ScDone res ->
+      scan P kw true whole m i ts cs = ScDone res ->
       Forall good res /\ (forall c, In c cs -> In c res) /\ ext_open m i res /\ reach i res.
   Proof.
     induction ts as [|t r IH]; intros m i cs res Hsk Hm Hgood Hlim Hscan.
@@ -211,7 +225,7 @@ Section ScanFacts.
         by (intros j Hj; eapply skipn_nil_nth; eauto).
       assert (Hreach : forall res', reach i res').
       { intros res' j tj Hj Hn. rewrite (Hnone j Hj) in Hn. discriminate. }
-      cbn [scan] in Hscan. destruct m as [last|last|key st row p b c saw].
+      cbn [scan] in Hscan. destruct m as [last prev nm|last prev nm|key st row p b c saw].
       + discriminate.
       + inversion Hscan; subst res. repeat split; auto.
         * apply Forall_rev; auto.
@@ -236,7 +250,7 @@ Section ScanFacts.
       { intros Hnl res' Hre j tj Hj Hn Hl. destruct (Nat.eq_dec j i) as [->|Hne].
         - rewrite Hnth in Hn. inversion Hn; subst tj. congruence.
         - apply (Hre j tj); auto; lia. }
-      destruct m as [last|last|key st row p b c saw].
+      destruct m as [last prev nm|last prev nm|key st row p b c saw].
       + (* First *)
         cbn [mode_inv lim] in *.
         destruct (is_kind KName t) eqn:Hname.
@@ -247,22 +261,22 @@ Section ScanFacts.
              { unfold is_name. rewrite Hname. destruct (Hkw _ Hin) as [E|E]; rewrite E in *; [reflexivity|discriminate]. }
              assert (Hminv : mode_inv (Ext (Some nm0) i (trow t) 0 0 0 false) (S i)).
              { cbn [mode_inv]. split; [lia|]. split; [exists t; auto|].
-               split; [unfold ext_stop; rewrite Hr; reflexivity|]. split; [exact Hm | discriminate]. }
+               split; [unfold ext_stop; rewrite Hr; reflexivity|]. split; [exact (proj1 Hm) | discriminate]. }
              apply (IH _ _ _ _ Hr Hminv Hgood Hlim) in Hscan.
              destruct Hscan as (R1 & R2 & R3 & R4). split; [auto|]. split; [auto|]. split; [exact I|].
              intros j tj Hj Hn Hl. destruct (Nat.eq_dec j i) as [->|Hne].
              ++ left. cbn in R3. destruct R3 as (c & Hc & Hcs & _). exists c; auto.
              ++ apply (R4 j tj); auto; lia.
-          -- assert (Hminv : mode_inv (First (Some (ttext t))) (S i)) by (cbn; apply seek_name; auto).
-             assert (Hlim' : forall c0, In c0 cs -> c_start c0 < lim (First (Some (ttext t))) (S i)).
+          -- assert (Hminv : mode_inv (First (Some (ttext t)) last true) (S i)) by (cbn; eapply seek_name; eauto).
+             assert (Hlim' : forall c0, In c0 cs -> c_start c0 < lim (First (Some (ttext t)) last true) (S i)).
              { cbn. intros c0 Hc. specialize (Hlim c0 Hc). lia. }
              apply (IH _ _ _ _ Hr Hminv Hgood Hlim') in Hscan.
              destruct Hscan as (R1 & R2 & R3 & R4). split; [auto|]. split; [auto|]. split; [exact I|].
              apply Hnotl; auto.
              destruct (is_name "lambda" t) eqn:Hl; auto.
              rewrite (lambda_in_kw _ Hl) in Hin. discriminate.
-        * assert (Hminv : mode_inv (First last) (S i)) by (cbn; eapply seek_other; eauto).
-          assert (Hlim' : forall c0, In c0 cs -> c_start c0 < lim (First last) (S i)).
+        * assert (Hminv : mode_inv (First (unkw true nm last prev t) prev false) (S i)) by (cbn; eapply seek_other; eauto).
+          assert (Hlim' : forall c0, In c0 cs -> c_start c0 < lim (First (unkw true nm last prev t) prev false) (S i)).
           { cbn. intros c0 Hc. specialize (Hlim c0 Hc). lia. }
           apply (IH _ _ _ _ Hr Hminv Hgood Hlim') in Hscan.
           destruct Hscan as (R1 & R2 & R3 & R4). split; [auto|]. split; [auto|]. split; [exact I|].
@@ -274,14 +288,14 @@ Section ScanFacts.
           -- assert (Hlam : is_name "lambda" t = true) by (unfold is_name; rewrite Hname, Hl; reflexivity).
              assert (Hminv : mode_inv (Ext last i (trow t) 0 0 0 false) (S i)).
              { cbn [mode_inv]. split; [lia|]. split; [exists t; auto|].
-               split; [unfold ext_stop; rewrite Hr; reflexivity|]. split; [exact Hm | discriminate]. }
+               split; [unfold ext_stop; rewrite Hr; reflexivity|]. split; [exact (proj1 Hm) | discriminate]. }
              apply (IH _ _ _ _ Hr Hminv Hgood Hlim) in Hscan.
              destruct Hscan as (R1 & R2 & R3 & R4). split; [auto|]. split; [auto|]. split; [exact I|].
              intros j tj Hj Hn Hl'. destruct (Nat.eq_dec j i) as [->|Hne].
              ++ left. cbn in R3. destruct R3 as (c & Hc & Hcs & _). exists c; auto.
              ++ apply (R4 j tj); auto; lia.
-          -- assert (Hminv : mode_inv (Seek (Some (ttext t))) (S i)) by (cbn; apply seek_name; auto).
-             assert (Hlim' : forall c0, In c0 cs -> c_start c0 < lim (Seek (Some (ttext t))) (S i)).
+          -- assert (Hminv : mode_inv (Seek (Some (ttext t)) last true) (S i)) by (cbn; eapply seek_name; eauto).
+             assert (Hlim' : forall c0, In c0 cs -> c_start c0 < lim (Seek (Some (ttext t)) last true) (S i)).
              { cbn. intros c0 Hc. specialize (Hlim c0 Hc). lia. }
              apply (IH _ _ _ _ Hr Hminv Hgood Hlim') in Hscan.
              destruct Hscan as (R1 & R2 & R3 & R4). split; [auto|]. split; [auto|]. split; [exact I|].
@@ -295,8 +309,8 @@ Section ScanFacts.
                 apply is_name_kind in Hl. destruct Hl as [Hl _]. congruence.
              ++ right. right. exists i, t. split; [lia|]. split; [auto|]. split; [apply newline_is_nl; auto|].
                 intros c Hc. apply in_rev2 in Hc. auto.
-          -- assert (Hminv : mode_inv (Seek last) (S i)) by (cbn; eapply seek_other; eauto).
-             assert (Hlim' : forall c0, In c0 cs -> c_start c0 < lim (Seek last) (S i)).
+          -- assert (Hminv : mode_inv (Seek (unkw true nm last prev t) prev false) (S i)) by (cbn; eapply seek_other; eauto).
+             assert (Hlim' : forall c0, In c0 cs -> c_start c0 < lim (Seek (unkw true nm last prev t) prev false) (S i)).
              { cbn. intros c0 Hc. specialize (Hlim c0 Hc). lia. }
              apply (IH _ _ _ _ Hr Hminv Hgood Hlim') in Hscan.
              destruct Hscan as (R1 & R2 & R3 & R4). split; [auto|]. split; [auto|]. split; [exact I|].
@@ -324,8 +338,8 @@ Section ScanFacts.
              intros c0 Hc. apply in_rev2 in Hc. subst cs'. destruct Hc as [<-|Hc].
              ++ cbn. lia.
              ++ specialize (Hlim c0 Hc). lia.
-          -- assert (Hminv : mode_inv (Seek None) (S i)) by (cbn; eapply seek_after_stop; eauto).
-             assert (Hlim' : forall c0, In c0 cs' -> c_start c0 < lim (Seek None) (S i)).
+          -- assert (Hminv : mode_inv (Seek None None false) (S i)) by (cbn; eapply seek_after_stop; eauto).
+             assert (Hlim' : forall c0, In c0 cs' -> c_start c0 < lim (Seek None None false) (S i)).
              { cbn. subst cs'. intros c0 [<-|Hc]; [cbn; lia|]. specialize (Hlim c0 Hc). lia. }
              apply (IH _ _ _ _ Hr Hminv Hgood' Hlim') in Hk.
              destruct Hk as (R1 & R2 & R3 & R4). split; [auto|].
@@ -360,13 +374,13 @@ Section ScanFacts.
 End ScanFacts.
 
 (* ------------------------------------------------------------------ the backing-up loop *)
-Lemma backup_some : forall P kw streams s0 s r,
-    backup P kw streams s0 = (s, Some r) ->
+Lemma backup_some : forall P kw eqfix streams s0 s r,
+    backup P kw eqfix streams s0 = (s, Some r) ->
     s0 <= s /\ (forall k, r <> ScNoName k) /\
-    exists toks, nth_error streams (s - s0) = Some toks /\ scan_stream P kw toks = r.
+    exists toks, nth_error streams (s - s0) = Some toks /\ scan_stream P kw eqfix toks = r.
 Proof.
-  intros P kw. induction streams as [|ts more IH]; intros s0 s r H; cbn [backup] in H; [discriminate|].
-  destruct (scan_stream P kw ts) eqn:E;
+  intros P kw eqfix. induction streams as [|ts more IH]; intros s0 s r H; cbn [backup] in H; [discriminate|].
+  destruct (scan_stream P kw eqfix ts) eqn:E;
     try (inversion H; subst; split; [lia|]; split; [discriminate|];
          exists ts; rewrite Nat.sub_diag; split; [reflexivity | exact E]).
   apply IH in H. destruct H as (Hle & Hnn & toks & Hn & Hs). split; [lia|]. split; [auto|].
@@ -399,7 +413,7 @@ Qed.
 Theorem never_picks_neighbour_gen :
   forall kwfix is_lam P streams L dsrc caller args s k toks k0,
     kwfix = false \/ is_lam = true ->
-    find_gen true kwfix P streams L is_lam dsrc (Some caller) args = Found s k ->
+    find_gen true kwfix true P streams L is_lam dsrc (Some caller) args = Found s k ->
     nth_error streams s = Some toks ->
     rows_okb toks = true ->
     lambda_atb P toks k0 L caller args = true ->
@@ -409,9 +423,9 @@ Proof.
   intros kwfix is_lam P streams L dsrc caller args s k toks k0 Hkwf Hfind Hnth Hrows Hat Hnest.
   destruct (keywords_ok kwfix is_lam Hkwf) as [Hkw HkwL].
   unfold find_gen in Hfind.
-  destruct (backup P (keywords kwfix is_lam) streams 0) as [s' o] eqn:Hb.
+  destruct (backup P (keywords kwfix is_lam) true streams 0) as [s' o] eqn:Hb.
   destruct o as [r|]; [|discriminate].
-  destruct (backup_some _ _ _ _ _ _ Hb) as (_ & _ & toks' & Hn' & Hscan).
+  destruct (backup_some _ _ _ _ _ _ _ Hb) as (_ & _ & toks' & Hn' & Hscan).
   rewrite Nat.sub_0_r in Hn'.
   destruct r as [cs| | | |]; try discriminate.
   2:{ exfalso. destruct dsrc as [b|e]; cbn [def_outcome] in Hfind; try discriminate.
@@ -419,9 +433,9 @@ Proof.
   apply select_found in Hfind. destruct Hfind as (-> & c & Hc & Hck & Hkey & Hargs & Hrow & Huniq).
   rewrite Hnth in Hn'. inversion Hn'; subst toks'. clear Hn'.
   unfold scan_stream in Hscan.
-  assert (Hinv0 : mode_inv toks (First None) 0) by (intros nm H; cbn in H; discriminate).
-  assert (Hlim0 : forall c0 : cand, In c0 [] -> c_start c0 < lim (First None) 0) by (intros c0 []).
-  destruct (scan_sound P _ toks Hkw HkwL toks (First None) 0 [] cs eq_refl Hinv0 (Forall_nil _) Hlim0 Hscan)
+  assert (Hinv0 : mode_inv toks (First None None false) 0) by (cbn; repeat split; intros x H; discriminate).
+  assert (Hlim0 : forall c0 : cand, In c0 [] -> c_start c0 < lim (First None None false) 0) by (intros c0 []).
+  destruct (scan_sound P _ toks Hkw HkwL toks (First None None false) 0 [] cs eq_refl Hinv0 (Forall_nil _) Hlim0 Hscan)
     as (Hgood & _ & _ & Hreach).
   rewrite Forall_forall in Hgood.
   (* the passed lambda *)
@@ -483,13 +497,13 @@ Proof.
 Qed.
 
 (* ------------------------------------------------------------------ lambda vs def *)
-Lemma scan_lambda_not_def : forall P whole ts m i cs,
-    scan P ["lambda"] whole m i ts cs <> ScDef.
+Lemma scan_lambda_not_def : forall P eqfix whole ts m i cs,
+    scan P ["lambda"] eqfix whole m i ts cs <> ScDef.
 Proof.
-  intros P whole. induction ts as [|t r IH]; intros m i cs; cbn [scan].
+  intros P eqfix whole. induction ts as [|t r IH]; intros m i cs; cbn [scan].
   - destruct m; try discriminate. unfold close. destruct (P _); discriminate.
   - destruct (is_kind KErr t); [discriminate|].
-    destruct m as [last|last|key st row p b c saw].
+    destruct m as [last prev nm|last prev nm|key st row p b c saw].
     + destruct (is_kind KName t); [|apply IH].
       cbn [existsb]. destruct (String.eqb (ttext t) "lambda") eqn:E; cbn [orb]; [|apply IH].
       apply String.eqb_eq in E. rewrite E. cbn. destruct last; [apply IH | discriminate].
@@ -513,21 +527,21 @@ Theorem lambda_never_def :
   forall P streams L dsrc caller args, find P streams L true dsrc caller args <> FoundDef.
 Proof.
   intros P streams L dsrc caller args. unfold find, find_gen. cbn [keywords].
-  destruct (backup P ["lambda"] streams 0) as [s o] eqn:Hb.
+  destruct (backup P ["lambda"] true streams 0) as [s o] eqn:Hb.
   destruct o as [r|]; [|discriminate].
-  destruct (backup_some _ _ _ _ _ _ Hb) as (_ & _ & toks & _ & Hs).
+  destruct (backup_some _ _ _ _ _ _ _ Hb) as (_ & _ & toks & _ & Hs).
   destruct r; try discriminate.
   - apply select_not_def.
   - exfalso. unfold scan_stream in Hs. eapply scan_lambda_not_def; eauto.
 Qed.
 
-Lemma scan_def_first : forall P whole ts last i cs,
-    match scan P ["def"] whole (First last) i ts cs with
+Lemma scan_def_first : forall P eqfix whole ts last prev nm i cs,
+    match scan P ["def"] eqfix whole (First last prev nm) i ts cs with
     | ScDone _ | ScNoName _ => False
     | _ => True
     end.
 Proof.
-  intros P whole. induction ts as [|t r IH]; intros last i cs; cbn [scan]; [exact I|].
+  intros P eqfix whole. induction ts as [|t r IH]; intros last prev nm i cs; cbn [scan]; [exact I|].
   destruct (is_kind KErr t); [exact I|].
   destruct (is_kind KName t); [|apply IH].
   cbn [existsb]. destruct (String.eqb (ttext t) "def") eqn:E; cbn [orb]; [exact I | apply IH].
@@ -537,10 +551,10 @@ Theorem def_never_lambda :
   forall P streams L dsrc caller args s k, find P streams L false dsrc caller args <> Found s k.
 Proof.
   intros P streams L dsrc caller args s k. unfold find, find_gen. cbn [keywords].
-  destruct (backup P ["def"] streams 0) as [s' o] eqn:Hb.
+  destruct (backup P ["def"] true streams 0) as [s' o] eqn:Hb.
   destruct o as [r|]; [|discriminate].
-  destruct (backup_some _ _ _ _ _ _ Hb) as (_ & _ & toks & _ & Hs).
-  unfold scan_stream in Hs. pose proof (scan_def_first P toks toks None 0 []) as Hd. rewrite Hs in Hd.
+  destruct (backup_some _ _ _ _ _ _ _ Hb) as (_ & _ & toks & _ & Hs).
+  unfold scan_stream in Hs. pose proof (scan_def_first P true toks toks None None false 0 []) as Hd. rewrite Hs in Hd.
   destruct r; try discriminate; try contradiction.
   destruct dsrc as [b|e]; cbn [def_outcome]; try discriminate.
   destruct (filter not_doc b) as [|x [|y l']]; try discriminate; destruct x; discriminate.
@@ -549,23 +563,23 @@ Qed.
 (* ------------------------------------------------------------------ totality *)
 Definition no_err_toks (ts : list tok) : bool := forallb no_err ts.
 
-Lemma scan_no_crash : forall P kw whole,
+Lemma scan_no_crash : forall P kw eqfix whole,
     (forall x, exists a, P x = PArgs a) ->
     forall ts m i cs, no_err_toks ts = true ->
       Forall (fun c => exists a, c_parse c = PArgs a) cs ->
-      match scan P kw whole m i ts cs with
+      match scan P kw eqfix whole m i ts cs with
       | ScCrash _ => False
       | ScDone res => Forall (fun c => exists a, c_parse c = PArgs a) res
       | _ => True
       end.
 Proof.
-  intros P kw whole HP. induction ts as [|t r IH]; intros m i cs Hne Hcs; cbn [scan].
+  intros P kw eqfix whole HP. induction ts as [|t r IH]; intros m i cs Hne Hcs; cbn [scan].
   - destruct m; auto.
     + apply Forall_rev; auto.
     + unfold close. destruct (HP (extent whole start i)) as [a ->]. apply Forall_rev. constructor; [cbn; eauto | auto].
   - cbn [no_err_toks forallb] in Hne. apply andb_true_iff in Hne. destruct Hne as [Ht Hr].
     unfold no_err in Ht. destruct (is_kind KErr t); [discriminate|].
-    destruct m as [last|last|key st row p b c saw].
+    destruct m as [last prev nm|last prev nm|key st row p b c saw].
     + destruct (is_kind KName t); [|apply IH; auto].
       destruct (existsb (String.eqb (ttext t)) kw); [|apply IH; auto].
       destruct (String.eqb (ttext t) "def"); [exact I|]. destruct last; [apply IH; auto | exact I].
@@ -589,12 +603,12 @@ Theorem finder_total :
     forall c, find P streams L is_lam dsrc caller args <> Crash c.
 Proof.
   intros P streams L is_lam dsrc caller args HP Hne Hd c. unfold find, find_gen.
-  destruct (backup P (keywords true is_lam) streams 0) as [s o] eqn:Hb.
+  destruct (backup P (keywords true is_lam) true streams 0) as [s o] eqn:Hb.
   destruct o as [r|]; [|discriminate].
-  destruct (backup_some _ _ _ _ _ _ Hb) as (_ & _ & toks & Hn & Hs).
+  destruct (backup_some _ _ _ _ _ _ _ Hb) as (_ & _ & toks & Hn & Hs).
   assert (Htoks : no_err_toks toks = true).
   { rewrite forallb_forall in Hne. apply Hne. eapply nth_error_In; eauto. }
-  pose proof (scan_no_crash P (keywords true is_lam) toks HP toks (First None) 0 [] Htoks (Forall_nil _)) as Hsc.
+  pose proof (scan_no_crash P (keywords true is_lam) true toks HP toks (First None None false) 0 [] Htoks (Forall_nil _)) as Hsc.
   unfold scan_stream in Hs. rewrite Hs in Hsc.
   destruct r as [cs| | | |]; try discriminate; try contradiction.
   - unfold select.
